@@ -150,6 +150,7 @@ pub fn range_of(at: &Where, ranges: &Ranges, attr_ranges: &[R]) -> Option<R> {
     match at {
         Where::Item(id) => ranges.item.get(id).copied(),
         Where::Value(id) => ranges.value.get(id).copied(),
+        Where::Element(id, k) => ranges.elem.get(&(*id, *k)).copied(),
         Where::Name(id) => ranges.name.get(id).copied(),
         Where::Attr(i) => attr_ranges.get(*i).copied(),
         Where::Nowhere => None,
@@ -326,6 +327,7 @@ fn where_name(w: &Where) -> &'static str {
     match w {
         Where::Item(_) => "item",
         Where::Value(_) => "value",
+        Where::Element(..) => "array element",
         Where::Name(_) => "name",
         Where::Attr(_) => "attribute",
         Where::Nowhere => "nothing",
